@@ -134,6 +134,9 @@ type c08Case struct {
 	Konst int    `json:"konst"`
 	Chunk int    `json:"chunk"`
 	Ops   []int  `json:"ops"` // algorithm enum value of each call, 0..255
+	// SlowMs: every read of the source takes this long before it delivers (an entropy pool that blocks): the secret is still
+	// made of the bytes the source delivers, however long that takes - not of a substitute produced while waiting
+	SlowMs int `json:"slow_ms,omitempty"`
 }
 
 func sizeOf(algo int) int {
@@ -179,6 +182,8 @@ func secretBytes(text string) ([]byte, bool) {
 func checkC08(c c08Case) (v verdict) {
 	st := theTape
 	st.set(c.Seed, c.Konst, c.Chunk)
+	st.slow.Store(int64(c.SlowMs) * 1_000_000)
+	defer st.slow.Store(0)
 	sizes := map[int]bool{}
 	unsupportedBetween, otherOps, readAhead := false, false, false
 	succ := 0
@@ -334,7 +339,7 @@ func checkC08(c c08Case) (v verdict) {
 }
 
 var c08Main = newPart("C08", "histories",
-	"rapid: call histories of 1..24 RandomSecret calls with algorithm values 0..255 (biased to the three hashes), crypto/rand.Reader replaced by a recording endless stream (SHA-256 counter-mode PRF of a drawn seed, or a constant byte 0x00/0xff/other) delivered in full or in short reads of 1..7 bytes; model = stream cursor: k-th successful call returns exactly unpadded upper-case base32 of stream[cur:cur+20|32|64], consumes exactly that many bytes, DecodeSecret maps it back, and every secret returned earlier in the history is still unchanged; unsupported algorithm => error, no secret, nothing consumed; in between, other exported operations (rendering algorithm values, URL builders with and without a secret, HOTP) which must not change any of this — a secret a URL builder generates for an empty Secret is held to the same rule; non-trivial = >= 2 successful calls of different sizes or an unsupported call after a successful one",
+	"rapid: call histories of 1..24 RandomSecret calls with algorithm values 0..255 (biased to the three hashes), crypto/rand.Reader replaced by a recording endless stream (SHA-256 counter-mode PRF of a drawn seed, or a constant byte 0x00/0xff/other) delivered in full or in short reads of 1..7 bytes, plus enumerated histories over a source that blocks 300 ms (thorough: also 1.5 s, 5.5 s) before each delivery; model = stream cursor: k-th successful call returns exactly unpadded upper-case base32 of stream[cur:cur+20|32|64], consumes exactly that many bytes, DecodeSecret maps it back, and every secret returned earlier in the history is still unchanged; unsupported algorithm => error, no secret, nothing consumed; in between, other exported operations (rendering algorithm values, URL builders with and without a secret, HOTP) which must not change any of this — a secret a URL builder generates for an empty Secret is held to the same rule; non-trivial = >= 2 successful calls of different sizes or an unsupported call after a successful one",
 	checkC08)
 
 func genC08(t *rapid.T) c08Case {
@@ -362,6 +367,19 @@ func genC08(t *rapid.T) c08Case {
 }
 
 func TestC08_Histories(t *testing.T) {
+	// a source that blocks before it delivers (300 ms; thorough also 1.5 s and 5.5 s), enumerated: few cases, they cost time
+	i := 0
+	slows := []int{300}
+	if ev.Thorough() {
+		slows = []int{300, 1500, 5500}
+	}
+	for _, ms := range slows {
+		for a := 0; a < 3; a++ {
+			if i++; ev.Mine(i) {
+				c08Main.each(t, c08Case{Seed: uint64(1000*ms + a), Konst: -1, Ops: []int{a, (a + 1) % 3}, SlowMs: ms})
+			}
+		}
+	}
 	c08Main.rapid(t, ev.Pick(4_000, 60_000), genC08)
 }
 
